@@ -153,6 +153,20 @@ func enumC14(env *engine.Env, yield func(any) bool) {
 			}
 		}
 	}
+	// the same with an epoch (and release / metadata) configured: the other components must not get lost on the way
+	for _, b := range bases3[:8] {
+		for _, p := range c14Pres[1:] {
+			for _, rel := range []string{"", "4"} {
+				for _, meta := range []string{"", "git5"} {
+					a := VerCfg{Version: b, Pre: p, Release: rel, Meta: meta, Epoch: "2"}
+					r := VerCfg{Version: b, Release: rel, Meta: meta, Epoch: "2"}
+					if !yield(C14Case{Part: "order", A: a, B: r, Want: -1, Why: "a prerelease sorts before its release"}) {
+						return
+					}
+				}
+			}
+		}
+	}
 	// the embedded spelling (version: 1.2.3-rc1) must behave like the explicit one
 	for _, b := range bases3[:16] {
 		for _, p := range c14Pres[1:] {
